@@ -1,2 +1,5 @@
+import AGV.Util.Digits
 import AGV.Util.Judge
 import AGV.Util.Sexp
+import AGV.Core.LValue
+import AGV.Core.Types
